@@ -145,6 +145,8 @@ def check(ctx):
     _check_eval_fn(ctx, repo)
     _check_cond(ctx, repo)
     _check_param_store(ctx, repo)
+    from . import c04 as _c04
+    _c04._state_inventory(ctx, repo, "C03-R8")
     # ---------------- R6: projection flattening and call evaluation do not write into shared structures
     ctx.rule("C03-R6", "projection flattening never writes into the stored projection layers (FRESH-WRITE on types.py and the call path), and call() evaluates every function node through a fresh wrapper")
     from .. import fresh
